@@ -1,6 +1,6 @@
 (* Props/C14.v — transient fields and constructors never reach the wire. *)
 From Coq Require Import NArith ZArith List.
-From Desert Require Import Outcome IO Types Codec CodecWf CodecRt2 PropLemmas MiscProofs.
+From Desert Require Import Outcome IO Types Codec CodecWf CodecRt2 PropLemmas MiscProofs Inject.
 Import ListNotations.
 Open Scope N_scope.
 
@@ -9,6 +9,15 @@ Open Scope N_scope.
 Theorem C14_no_bytes : forall encf m vs vs' st,
   agree_written (r_fields m) vs vs' -> enc_record encf m vs st = enc_record encf m vs' st.
 Proof. exact MiscProofs.C14_no_bytes. Qed.
+
+(* ... and ONLY transient fields are dropped: two well-formed values with the same bytes (from the same string
+   table) have the same normal form, i.e. differ at most in transient fields *)
+Theorem C14_only_transients_are_dropped : forall f E t v v' st b st1 st2,
+  wf_env E = true -> wf_env_rt E = true -> wf_ty E t = true ->
+  wf_val f E t v = true -> wf_val f E t v' = true ->
+  enc f E t v st = Ok (b, st1) -> enc f E t v' st = Ok (b, st2) ->
+  normv f E t v = normv f E t v' /\ st1 = st2.
+Proof. exact enc_injective. Qed.
 
 (* decoding sets every transient field to its declared default: normv is what comes back *)
 Theorem C14_default : forall f E t v st b st' s k,
@@ -49,6 +58,7 @@ Example C14_example :
 Proof. vm_compute. repeat split. Qed.
 
 Print Assumptions C14_no_bytes.
+Print Assumptions C14_only_transients_are_dropped.
 Print Assumptions C14_default.
 Print Assumptions C14_ctor.
 Print Assumptions C14_optional_then_transient.
